@@ -2,7 +2,7 @@ import TLVerif.Util.Hex
 import TLVerif.Syntaxtl2.Parser
 import TLVerif.Syntaxtl2.Format
 import TLVerif.Syntaxtl2.ErrorPrint
-import TLVerif.Syntaxtl2.StructLemmas
+import TLVerif.Syntaxtl2.FileLemmas
 /-! Line-protocol handler for the `syntaxtl2` family: every line is a self-contained case.
 Mirrors go/hsyntaxtl2/main.go and the dump of go/hsyntaxtl2/overlay/verif_hooks_tl2.go. -/
 namespace TLVerif.Syntaxtl2
@@ -131,6 +131,18 @@ def handle (op : String) (args : List String) : String :=
       match parseTL2File s with
       | .ok (.ok f) =>
         s!"ok guard={!(f.any Comb.hasDep) && !(f.any Comb.hasSingletonUnion)} wf={f.all combWF}"
+      | .ok (.error _) => "rej"
+      | .panic => "panic"
+      | .nofuel => "nofuel"
+  | "cert", [o, h] =>
+    if o != "d" && o != "c" then "bad-op" else
+    match bytesOfHex h with
+    | none => "bad-op"
+    | some s =>
+      let opts := if o == "c" then canonicalOptions else defaultOptions
+      match parseTL2File s with
+      | .ok (.ok f) =>
+        if File.wf f then s!"ok wf=true lexcert={lexCert (printFile opts f) f}" else "ok wf=false"
       | .ok (.error _) => "rej"
       | .panic => "panic"
       | .nofuel => "nofuel"
